@@ -4,6 +4,7 @@ CONSTANTS Deltas = {0, 10, 21}
   MaxChunks = 2
   MaxBytes = 6
   Cap = 32
+  Ignores = {"none", "client", "server"}
   Variant = "code"
   Scripts1 = {1, 2, 3, 4, 5, 6, 7, 8, 9, 10, 11, 12, 13, 14}
   Scripts2 = {9}
